@@ -3362,6 +3362,24 @@ impl IceCandidate {
             None
         };
 
+        // Parse the optional related address (RFC 8839 §5.1: "raddr <ip> rport <port>")
+        // among the extension pairs that follow the candidate type.
+        let mut related_ip: Option<IpAddr> = None;
+        let mut related_port: Option<u16> = None;
+        let mut i = start_idx + 8;
+        while i + 1 < parts.len() {
+            match parts[i] {
+                "raddr" => related_ip = parts[i + 1].parse::<IpAddr>().ok(),
+                "rport" => related_port = parts[i + 1].parse::<u16>().ok(),
+                _ => {}
+            }
+            i += 2;
+        }
+        let related_address = match (related_ip, related_port) {
+            (Some(ip), Some(port)) => Some(SocketAddr::new(ip, port)),
+            _ => None,
+        };
+
         Ok(Self {
             foundation,
             priority,
@@ -3369,7 +3387,7 @@ impl IceCandidate {
             typ,
             transport,
             tcp_type,
-            related_address: None,
+            related_address,
             component,
         })
     }
